@@ -232,25 +232,46 @@ Proof.
   destruct (from_int_asis_spec v) as [E I]. unfold from_int_asis in *. repeat split; try exact E; apply I.
 Qed.
 
-(** RBig -> integer: succeeds exactly on n/1 (with n >= 0 for UBig); an integer-valued RBig is never refused *)
+(** RBig -> integer: succeeds exactly on n/1 (with n >= 0 for UBig); an integer-valued RBig is never refused.
+    Relaxed -> integer (after the repair /repo 4757027: the number is reduced first): succeeds exactly when the VALUE is
+    an integer, whatever pair is stored *)
+Lemma try_from_Repr_ok a b v :
+  (gen_IBig_try_from_Repr a b = Ok v <-> (a, b) = (v, 1)) /\
+  (gen_UBig_try_from_Repr a b = Ok v <-> (a, b) = (v, 1) /\ 0 <= v).
+Proof.
+  split.
+  - unfold gen_IBig_try_from_Repr. destruct (Z.eqb_spec b 1) as [->|H]; split; intros E; try congruence; try discriminate.
+  - unfold gen_UBig_try_from_Repr, sign_of. cbv beta iota.
+    destruct (Z.ltb_spec a 0) as [Ha|Ha]; cbn [sign_eqb].
+    + split; [discriminate | intros [E Hv]; injection E as <- _; lia].
+    + destruct (Z.eqb_spec b 1) as [->|H].
+      * split; [intros E; injection E as <-; rewrite Z.abs_eq by lia; split; [reflexivity | lia]
+               | intros [E Hv]; injection E as <-; rewrite Z.abs_eq by lia; reflexivity].
+      * split; [discriminate | intros [E _]; congruence].
+Qed.
+
 Theorem gen_try_into_int_ok x v :
   (gen_IBig_try_from_RBig x = Ok v <-> x = (v, 1)) /\
-  (gen_UBig_try_from_RBig x = Ok v <-> x = (v, 1) /\ 0 <= v) /\
-  (gen_IBig_try_from_Relaxed x = Ok v <-> x = (v, 1)) /\
-  (gen_UBig_try_from_Relaxed x = Ok v <-> x = (v, 1) /\ 0 <= v).
+  (gen_UBig_try_from_RBig x = Ok v <-> x = (v, 1) /\ 0 <= v).
+Proof. destruct x as [a b]. apply try_from_Repr_ok. Qed.
+
+Lemma canon_is_int x v : 0 < snd x -> (canon (fst x) (snd x) = (v, 1) <-> veq x (v, 1)).
 Proof.
-  destruct x as [a b].
-  assert (I : gen_IBig_try_from_Repr a b = Ok v <-> (a, b) = (v, 1)).
-  { unfold gen_IBig_try_from_Repr. destruct (Z.eqb_spec b 1) as [->|H]; split; intros E; try congruence; try discriminate. }
-  assert (U : gen_UBig_try_from_Repr a b = Ok v <-> (a, b) = (v, 1) /\ 0 <= v).
-  { unfold gen_UBig_try_from_Repr, sign_of. cbv beta iota.
-    destruct (Z.ltb_spec a 0) as [Ha|Ha]; cbn [sign_eqb].
-    - split; [discriminate | intros [E Hv]; injection E as <- _; lia].
-    - destruct (Z.eqb_spec b 1) as [->|H].
-      + split; [intros E; injection E as <-; rewrite Z.abs_eq by lia; split; [reflexivity | lia]
-               | intros [E Hv]; injection E as <-; rewrite Z.abs_eq by lia; reflexivity].
-      + split; [discriminate | intros [E _]; congruence]. }
-  split; [exact I|]. split; [exact U|]. split; [exact I | exact U].
+  intros H. pose proof (canon_veq (fst x) (snd x) H) as V. pose proof (canon_Inv (fst x) (snd x) H) as I.
+  destruct x as [a b]. cbn [fst snd] in *. split.
+  - intros E. rewrite E in V. apply veq_sym. exact V.
+  - intros E. apply Inv_unique; [exact I | split; cbn [fst snd]; [lia | apply Z.gcd_1_r] |].
+    apply veq_trans with (y := (a, b)); [cbn [snd]; lia | exact V | exact E].
+Qed.
+
+Theorem gen_try_into_int_relaxed x v : 0 < snd x ->
+  (gen_IBig_try_from_Relaxed x = Ok v <-> veq x (v, 1)) /\
+  (gen_UBig_try_from_Relaxed x = Ok v <-> veq x (v, 1) /\ 0 <= v).
+Proof.
+  intros H. unfold gen_IBig_try_from_Relaxed, gen_UBig_try_from_Relaxed.
+  destruct (canonicalize_ok x H) as [E _]. rewrite E.
+  destruct (try_from_Repr_ok (fst (canon (fst x) (snd x))) (snd (canon (fst x) (snd x))) v) as [I U].
+  rewrite <- surjective_pairing in I, U. rewrite (canon_is_int x v H) in I, U. split; assumption.
 Qed.
 Theorem rbig_integer_converts x v : Inv x -> veq x (v, 1) -> gen_IBig_try_from_RBig x = Ok v.
 Proof.
@@ -459,3 +480,16 @@ Proof.
   - repeat constructor; cbn; lia.
   - repeat constructor; cbn; lia.
 Qed.
+
+(* ---------------------------------------------------------------- non-vacuity of the theorems with hypotheses *)
+Example relaxed_into_int_ex :
+  gen_IBig_try_from_Relaxed (6, 3) = Ok 2 /\ gen_UBig_try_from_Relaxed (-6, 3) = Err 1 /\ gen_IBig_try_from_Relaxed (7, 3) = Err 2 /\
+  gen_IBig_try_from_RBig (2, 1) = Ok 2 /\ Inv (2, 1) /\ veq (2, 1) (2, 1).
+Proof. repeat split; cbn; lia. Qed.
+Example gassign_ex :
+  Inv (1, 6) /\ Inv (1, 10) /\ gassign AAdd (1, 6) (1, 10) = Ok (4, 15) /\ gxassign ADiv (1, 6) (0, 1) = Panic DivideBy0.
+Proof. repeat split; cbn; lia. Qed.
+Example canonicalize_serde_ex :
+  gen_Relaxed_canonicalize (6, 9) = (2, 3) /\ gen_serde_RBig_deserialize 6 9 = Ok (2, 3) /\ gen_serde_RBig_deserialize 6 0 = Err 0 /\
+  gen_serde_Relaxed_deserialize 6 4 = Ok (3, 2).
+Proof. repeat split. Qed.
